@@ -10,6 +10,7 @@ mod oracle;
 mod bits;
 mod per;
 mod probes;
+mod seq;
 mod versions;
 
 use input::Input;
@@ -38,6 +39,26 @@ pub fn run_case(input: &Input) -> Result<(), String> {
     let r = std::panic::catch_unwind(move || match i.case.as_str() {
         c if c.starts_with("bits_") => bits::run(&i),
         c if c.starts_with("per_") => per::run(&i),
+        c if c.starts_with("seq_") => seq::run(&i),
+        "charset_char" => {
+            use asn1rs::model::asn::Charset;
+            let c = char::from_u32(i.v[0] as u32).unwrap();
+            let u = c as u32;
+            let printable = c.is_ascii_alphanumeric() || " '()+,-./:=?".contains(c);
+            let checks = [
+                (Charset::Utf8, true),
+                (Charset::Numeric, c == ' ' || c.is_ascii_digit()),
+                (Charset::Printable, printable),
+                (Charset::Ia5, u <= 127),
+                (Charset::Visible, (32..=126).contains(&u)),
+            ];
+            for (cs, want) in checks {
+                if cs.is_valid(c) != want {
+                    return Err(format!("{cs:?}.is_valid({c:?}) = {} but X.680 says {want}", cs.is_valid(c)));
+                }
+            }
+            Ok(())
+        }
         other => Err(format!("unknown case {other}")),
     });
     match r {
@@ -84,6 +105,17 @@ fn main() {
                 match args[2].as_str() {
                     "bits" => bits::search(&mut rng, budget, &mut try_one),
                     "per" => per::search(&mut rng, budget / 4, &mut try_one),
+                    "seq" => seq::search(&mut rng, budget, &mut try_one),
+                    "charset" => {
+                        // exhaustive over all chars: Charset::is_valid against the X.680 clause 41 alphabets
+                        let mut c = 0u32;
+                        while c <= 0x10FFFF {
+                            if char::from_u32(c).is_some() && try_one(Input::new("charset_char").v(c as i128)) {
+                                break;
+                            }
+                            c += 1;
+                        }
+                    }
                     g => {
                         eprintln!("unknown group {g}");
                         std::process::exit(2);
